@@ -478,6 +478,11 @@ def sa_rewrites(body):
         ttype = t[0]
         out.append(('sa:remove-transform-type%d#%d' % (ttype, i), enc([(num, proto, spi, trs[:i] + trs[i + 1:])] + props[1:])))
         out.append(('sa:dup-transform-type%d#%d' % (ttype, i), enc([(num, proto, spi, trs[:i] + [t, t] + trs[i + 1:])] + props[1:])))
+        if len(t) == 4:
+            # a Key Length attribute hung on a transform that has none (whatever the receiver makes of the transform then,
+            # the octets are not the ones that were sent)
+            out.append(('sa:keylen-attribute-on-type%d#%d' % (ttype, i),
+                        enc([(num, proto, spi, trs[:i] + [t + struct.pack('>HH', 0x800e, 256)] + trs[i + 1:])] + props[1:])))
         alts = {1: [struct.pack('>BBHHH', 1, 0, 12, 0x800e, 128), struct.pack('>BBHHH', 1, 0, 12, 0x800e, 256),
                     struct.pack('>BBH', 1, 0, 3)],
                 2: [struct.pack('>BBH', 2, 0, x) for x in (2, 5, 7)],
